@@ -51,7 +51,7 @@ func c06NoEffectPath(r *an.Run, m *runModel) {
 			r.Pass(key, c.Pos(), "effect-free predicate helper on the unmatched path")
 		case an.IsCallTo(c, logPrintf):
 			r.Pass(key, c.Pos(), "log line on the unmatched path")
-		case an.IsCallTo(c, "builtin:append"):
+		case an.IsCallTo(c, "builtin:append") || isAccRecord(m, c):
 			// only the failure of the echo may be recorded
 			ok := false
 			for v := range an.BackSlice(c.Common().Args[len(c.Common().Args)-1], an.SliceOpts{ThroughCalls: true, ThroughMemory: true}) {
